@@ -72,4 +72,6 @@ d9b8bd6 C15
 c102342 C03
 32170f7 C07
 076191e C01
+e78a7a8 C08
+1be5d5d C08
 LIST
